@@ -96,7 +96,7 @@ def run(P, R, tier):
                             f'`{norm(c)}` refuses NaN: a partition whose geometry column is entirely missing makes the writer raise after the parts were written (no _common_metadata)')
     # column lists: every list literal of 4 strings starting with 'x0' must be exactly COLS
     ncol = 0
-    for f in [pb, w2] + list(w2.nested.values()) + list(pb.lambdas):
+    for f in list(dict.fromkeys([pb, w2] + list(w2.nested.values()) + list(pb.lambdas) + [g_ for g_ in P.mods['spatialpandas.dask'].funcs.values() if not isinstance(g_.node, ast.Lambda)])):
         for n in walk_own(f.node):
             if isinstance(n, ast.List) and len(n.elts) == 4 and all(isinstance(e, ast.Constant) and isinstance(e.value, str) for e in n.elts):
                 vals = [e.value for e in n.elts]
@@ -104,13 +104,27 @@ def run(P, R, tier):
                     ncol += 1
                     R.check(vals == COLS, 'C12.a', f, n, 'bounds columns are labelled (x0, y0, x1, y1) in total_bounds order',
                             f'bounds columns labelled {vals}: values of total_bounds (x0, y0, x1, y1) land under the wrong names')
-    R.floor('C12.a', 'column label lists', ncol, 2)
+    R.floor('C12.a', 'column label lists', ncol, 1)
     # the labelled values are total_bounds of the partition
-    for lam in pb.lambdas:
+    per_part = list(pb.lambdas)
+    for c_ in astq.own_calls(pb):
+        if isinstance(c_.func, ast.Attribute) and c_.func.attr == 'map_partitions' and c_.args and isinstance(c_.args[0], ast.Name):
+            r_ = P.resolve_expr_static(pb.mod, c_.args[0], local=pb)
+            if r_ and r_[0] == 'func' and r_[1] not in per_part:
+                per_part.append(r_[1])
+    for lam in per_part:
         src = norm(lam.node)
         if 'columns' in src:
             ok = any(isinstance(n, ast.Attribute) and n.attr == 'total_bounds' and isinstance(n.value, ast.Name) and n.value.id in lam.params
                      for n in ast.walk(lam.node))
+            if not isinstance(lam.node, ast.Lambda):
+                p0 = lam.params[0] if lam.params else None
+                for r_ in [x for x in walk_own(lam.node) if isinstance(x, ast.Return)]:
+                    e_ = astq.expand(lam, r_.value) if r_.value is not None else None
+                    one = e_ is not None and any(isinstance(n, ast.Attribute) and n.attr == 'total_bounds' for n in ast.walk(e_))
+                    R.check(one, 'C12.a', lam, r_, 'every return of the per-partition function is the one row of that partition\'s total_bounds',
+                            f'`{norm(r_)[:70]}` answers for a partition without its total_bounds row (an early exit for empty partitions): the partition contributes NO row, the rows of all '
+                            'later partitions move up by one and are recorded for the wrong part files', construct=f'{lam.name}: one row per partition')
             R.check(ok, 'C12.a', lam, lam.node, 'per-partition row is the total_bounds of that partition\'s series',
                     'per-partition bounds row is not the partition\'s own total_bounds')
     # to_parquet_dask: for every geometry column, series.partition_bounds.to_dict()
@@ -293,6 +307,14 @@ def run(P, R, tier):
         if 'bounds' in astq.names_in(s.test) and 'partition_bounds' in t:
             blk = s
     if blk is None:
+        # the block that filters on the stored bounds, not guarded by the bounds= argument: without bounds= nothing may be dropped, and a positive overlap mask
+        # drops the partitions whose recorded extent is NaN (only missing / empty geometries) - rows vanish from a plain read of the dataset
+        for s in astq.own_nodes(perform, ast.If):
+            if isinstance(s.test, ast.Compare) and isinstance(s.test.ops[0], ast.In) and 'partition_bounds' in norm(s.test) and any('.x0' in norm(x) or "'x0'" in norm(x) or 'intersect' in norm(x) for x in s.body):
+                blk = s
+                R.bad('C12.d', perform, s.test, f'the partition filter runs under `{norm(s.test)}`, whether or not bounds= was given: an unfiltered read passes through the overlap mask, and partitions whose recorded '
+                      'extent is NaN (all geometries missing or empty) overlap nothing - their rows are missing from the frame although the files hold them', construct='filter only with bounds=')
+    if blk is None:
         raise AnalysisError('C12.d: bounds filter block not found in _perform_read_parquet_dask')
     # C12.f: which table is filtered on
     tf = blk.test
@@ -329,6 +351,20 @@ def run(P, R, tier):
                             construct='geometry name read after set_geometry')
     R.check(okf, 'C12.f', perform, tf, 'the filter uses the bounds of the active geometry (meta.geometry.name after set_geometry)',
             'the bounds filter is not keyed by the active geometry of the result')
+    def _inline(stmts):
+        # a mask computed by a single-return helper (`inds = _intersects_box(df, x0, ...)`) is evaluated as the helper's expression
+        for k_, st in enumerate(stmts):
+            if isinstance(st, ast.Assign) and isinstance(st.value, ast.Call):
+                e_ = astq.inline_call(perform, st.value)
+                if e_ is not None and all(k in norm(e_) for k in ('.x0', '.x1', '.y0', '.y1')):
+                    new_ = ast.Assign(targets=st.targets, value=e_, lineno=st.lineno)
+                    ast.copy_location(new_, st)
+                    ast.fix_missing_locations(new_)
+                    stmts[k_] = new_
+            for sub_ in ([st.body, st.orelse] if isinstance(st, ast.If) else []):
+                _inline(sub_)
+    _inline(blk.body)
+
     def _is_mask(s):
         return (isinstance(s, ast.Assign) and isinstance(s.value, ast.UnaryOp) and isinstance(s.value.op, ast.Invert)) or \
             (isinstance(s, ast.Assign) and isinstance(s.value, (ast.BinOp, ast.BoolOp)) and all(k in norm(s.value) for k in ('.x0', '.x1', '.y0', '.y1')))
